@@ -24,6 +24,7 @@ DEFS = "(Definition/MyDef, (Green))"
 L_RAISES = "C07.raises.none"
 L_D5 = "C07.raises.delay_unit_letter_case"          # D5
 L_DELAY_BAD = "C07.raises.delay_invalid_value"      # sibling of D5: an *invalid* Delay value/unit raises instead of being reported
+L_DELAY_NOCONV = "C07.raises.delay_unit_without_conversion"   # new: accepted unit with no conversion factor (month, year) raises
 L_EQUAL = "C07.row.codes_equal_string"
 L_CELLS = "C07.row.cell_errors_reported"
 L_ROWLABEL = "C07.label.row"
@@ -356,6 +357,9 @@ def check_file(layout, rows, order, raise_label=L_RAISES, eq_label=L_EQUAL):
         n_un = sum(1 for i in issues if i["code"] == "ONSETS_UNORDERED")
         add(L_UNORDERED, n_un == (0 if list(order) == sorted(order) else 1), n_un,
             0 if list(order) == sorted(order) else 1)
+    if eq_label != L_EQUAL:  # dedicated part: every row-content check is attributed to its narrow label
+        res = [((eq_label if cl in (L_EQUAL, L_CELLS, L_COLLABEL) else cl), ok, o, e) for cl, ok, o, e in res
+               if cl not in (L_UNORDERED, L_TEMPORAL)]
     canon = collections.Counter()
     for i in issues:
         if i["code"] == "ONSETS_UNORDERED":
@@ -476,6 +480,8 @@ def unit_tables(w):
                         label = L_D5
                     elif not accepted:
                         label = L_DELAY_BAD
+                    elif uc.derivative_units[v].get_conversion_factor(v) is None:
+                        label = L_DELAY_NOCONV
                 if w.quick and v != u and not accepted and tag == "Duration":
                     continue
                 rows = build_rows("hed1", [{"HED": cell}, {"HED": "Blue"}], ONSETS)
@@ -523,6 +529,7 @@ def run(w: Workload):
               "at cell level, invalid only as a row, temporal markers, Delay/Duration, n/a, unknown key); a table = a set of "
               "1-4 distinct row types in a seeded time order at distinct onsets; a case = one row permutation of a table")
     counters = {}
+    _env()  # load schema and definitions before forking
     tables = main_tables(w)
     tables.sort(key=lambda t: -len(t["rows"]))
     jobs = _chunks(tables, 8)
